@@ -130,7 +130,7 @@ pub fn jobs(tier: Tier) -> Vec<Job> {
         for w in [1usize, 2] {
             let b = match (tier, w) {
                 (Tier::Quick, 1) => 4,
-                (Tier::Quick, _) => 3,
+                (Tier::Quick, _) => if matches!(c.name.as_str(), "independent2" | "funding-chain2") { 4 } else { 3 },
                 (Tier::Thorough, 1) => 5,
                 (Tier::Thorough, _) => 4,
             };
